@@ -86,7 +86,9 @@ class InterpLemmas(Unit):
                    z3.Implies(z3.And(seg(x1, va), x1 < x2, vb * (x2 - x1) == f1 * (x2 - x1) + f2 * (x1 - x1)), va == vb))
 
 
-UNITS = [ApplyDelayLinear("linear"), ApplyDelayLinear("linear_real_only"), InterpLemmas()]
+from .c10 import DistAlgebra          # the window arithmetic (extension = ceil(rate (max - min))) sizes the buffer the interpolation looks back into
+from .compiled import UpdateInputsDelay
+UNITS = [ApplyDelayLinear("linear"), ApplyDelayLinear("linear_real_only"), InterpLemmas(), DistAlgebra(), UpdateInputsDelay()]
 EXTRA = dict(assumptions=["jnp.interp's contract (piecewise linear through the knots, clamped outside, knots non-decreasing) is assumed; the derivative statement is the slope of the proved linear form - that jax.grad computes it is JAX's contract",
                           "integer leaves (sequence numbers) are cast back after interpolation (truncation): not modelled numerically"])
 
